@@ -347,6 +347,26 @@ func c11Stores(c *Ctx, rg *ssa.Function) map[string]string {
 			return nil, false
 		}
 		reached := false
+		// a test folded into a flag (`ignore := !allowed && keyIsUnsafe(key); if ignore`) is a φ at the branch; on
+		// a given path it stands for one of its operands, against which the same justifications are matched
+		oldHook := dynCutHook
+		dynCutHook = func(b *ssa.BasicBlock, idx int, st PState) bool {
+			ifi, ok := lastInstr(b).(*ssa.If)
+			if !ok {
+				return false
+			}
+			rc := ResolveCond(ifi.Cond, st, 0)
+			if rc == ifi.Cond {
+				return false
+			}
+			cond, flip := stripNot(rc)
+			if call, ok := cond.(*ssa.Call); ok && CalleeName(&call.Call) == "config.keyIsUnsafe" && SameValue(call.Call.Args[0], key) {
+				passWhen := false != flip // passes when keyIsUnsafe(key) is false
+				return (idx == 0) == passWhen
+			}
+			return false
+		}
+		defer func() { dynCutHook = oldHook }()
 		ExploreX(l.Body, nil, nil, nil, just, assume, func(in ssa.Instruction, st PState) bool {
 			if in == ssa.Instruction(sink) {
 				reached = true
